@@ -26,7 +26,7 @@ from vlib.shrink import shrink_seq
 
 ID = "C05"
 LEVEL = "fault_enumeration"
-BUDGET = {"quick": 110, "thorough": 1000}
+BUDGET = {"quick": 200, "thorough": 1200}
 RULE = (
     "case = (parser variant, generated well-formed token list, 1-3 token-level "
     "faults from {delete, duplicate, swap, replace-by-vocabulary-token, truncate, "
@@ -142,6 +142,12 @@ def apply_faults(tokens, faults):
                 if toks[j][1] == "units" and ">" not in toks[j][0][:-1]:
                     toks[j] = (toks[j][0][:-1], "badunits", None)
                     break
+        elif kind == "open-comment":
+            # a comment is opened at i and never closed: it runs to the end of the
+            # text (which then ends in a line end or not, f[2])
+            rest = "/* note\n" + render(toks[i:]) + ("\n", "", " \n", "\r\n")[f[2] % 4]
+            if "*/" not in rest:
+                toks = toks[:i] + [(rest, "broken", None)]
         elif kind == "cut":
             # truncate inside the first quoted/units token at or after i
             for j in list(range(i, len(toks))) + list(range(0, i)):
@@ -181,6 +187,7 @@ def fault_strategy():
         st.tuples(st.just("begin-form"), idx),
         st.tuples(st.just("wrong-end"), idx),
         st.tuples(st.just("double-open"), idx),
+        st.tuples(st.just("open-comment"), idx, idx),
     )
     return st.lists(one, min_size=1, max_size=3)
 
@@ -366,7 +373,9 @@ def single_faults(acc, d):
                        ("cut", i, 1), ("cut", i, 2), ("badchar", i, 0),
                        ("badchar", i, 1), ("badunits", i), ("unclose", i),
                        ("unclose-quote", i), ("badword", i), ("begin-form", i),
-                       ("nul", i), ("wrong-end", i), ("double-open", i)]
+                       ("nul", i), ("wrong-end", i), ("double-open", i),
+                       ("open-comment", i, 0), ("open-comment", i, 1),
+                       ("open-comment", i, 2), ("open-comment", i, 3)]
             faults += [("replace", i, k) for k in range(len(PUNCT) + 4)]
         for f in faults:
             toks = apply_faults(base, [f])
@@ -406,7 +415,8 @@ def _fault_menu(n):
     for i in range(n):
         faults += [("delete", i), ("dup", i), ("swap", i), ("truncate", i),
                    ("badchar", i, 1), ("badunits", i), ("unclose", i),
-                   ("unclose-quote", i), ("badword", i), ("begin-form", i), ("nul", i)]
+                   ("unclose-quote", i), ("badword", i), ("begin-form", i), ("nul", i),
+                   ("open-comment", i, 0)]
         faults += [("replace", i, k) for k in range(len(PUNCT))]
     return faults
 
